@@ -1334,7 +1334,12 @@ PRELUDE = r"""
 #define VERIF_ALLOCBOUND(c, m) ((void)0)
 #define VERIF_WITNESS() __CPROVER_assert(0, "WITNESS")
 #else
+#ifdef VERIF_ONLY_GLOBAL
+#define VERIF_ASSERT(c, m) ((void)0)
+#define VERIF_NO_UB 1
+#else
 #define VERIF_ASSERT(c, m) __CPROVER_assert(c, m)
+#endif
 #ifdef VERIF_NO_UB
 #define VERIF_UB(c, m) ((void)0)
 #else
